@@ -782,10 +782,13 @@ class SamplingMethod(DirectMethod):
         # (the comparison is constant): refuse the problem when they do not hold instead of dropping them silently
         try:
             lo, hi = float(getattr(self.time_grid, 'min', 0)), float(getattr(self.time_grid, 'max', inf))
-            cg = self.control_grid
+            if self.time_grid.localize_T or self.time_grid.localize_t0 or isinstance(self.time_grid, FreeGrid):
+                return # the interval lengths are decision variables: handled by the NLP constraints
+            # the interval lengths do not depend on t0
+            cg = self.time_grid(0, ca.evalf(self.T), self.N)
             cg = np.array(ca.evalf(ca.vcat(cg) if isinstance(cg, list) else ca.vec(cg))).reshape(-1)
         except Exception:
-            return # symbolic grid or bounds: handled by the NLP constraints
+            return # symbolic horizon or bounds: handled by the NLP constraints
         lengths = np.diff(cg)
         tol = 1e-12*(1+np.max(np.abs(cg)))
         if np.any(lengths < lo-tol) or np.any(lengths > hi+tol):
